@@ -237,7 +237,8 @@ func (c *layoutCase) render() (src string, model []string, decls [][]declRef) {
 						text = fmt.Sprintf("%s%s, %s = 1, 2", kw, n1, n2)
 						refs = []declRef{{obj: n1}, {obj: n2}}
 					default:
-						text = fmt.Sprintf("%s%s = 1", kw, n1)
+						// (every fourth: a value with a field list of its own on the declaration's line)
+						text = fmt.Sprintf("%s%s = %s", kw, n1, []string{"1", "func(n int) int { return n }", "1", "struct{ X, Y int }{1, 2}"}[id%4])
 						refs = []declRef{{obj: n1}}
 					}
 				case "top-const", "const":
@@ -264,7 +265,8 @@ func (c *layoutCase) render() (src string, model []string, decls [][]declRef) {
 					if r.H == 3 {
 						text = fmt.Sprintf("%s%s func(\n%s\tint,\n%s) error", kw, n1, indent, indent)
 					} else {
-						text = fmt.Sprintf("%s%s int", kw, n1)
+						// one-line types with nested field lists (parameters, results, inline struct fields) on the declaration's own line
+						text = fmt.Sprintf("%s%s %s", kw, n1, []string{"int", "func(s string) error", "struct{ L, R int }", "int", "func(n int) (v int, err error)"}[id%5])
 					}
 					refs = []declRef{{obj: n1}}
 				case "struct":
@@ -276,7 +278,7 @@ func (c *layoutCase) render() (src string, model []string, decls [][]declRef) {
 						text = fmt.Sprintf("%s, %s int", n1, n2)
 						refs = []declRef{{obj: sname, field: n1}, {obj: sname, field: n2}}
 					default:
-						text = fmt.Sprintf("%s int", n1)
+						text = fmt.Sprintf("%s %s", n1, []string{"int", "func(err error)", "struct{ X int }", "int", "func(a, b int) (ok bool)"}[id%5])
 						refs = []declRef{{obj: sname, field: n1}}
 					}
 				}
@@ -843,7 +845,7 @@ func init() {
 			Name: "layout", Quick: 1600, Thorough: 12000, New: func() Case { return &layoutCase{} },
 			Gen:      func(r *Rng, i int) Case { return genLayout(r) },
 			BatchRun: layoutBatch, ShrinkBudget: 60, MaxShrinks: 6,
-			Rule: "source files of 1–3 sections (ungrouped var/type/const, struct fields, grouped const/var/type) × 1–7 rows among blank line, 1–3-line comment group (line or block comments, tag lines, go: prose), one- or three-line declaration with or without trailing comment, multi-name declarations; comments that belong to no declaration on lines that hold code (after the opening brace of a struct or the opening parenthesis of a group, behind a one-line function) directly above declarations; in about one file of three a `//line file:N` directive between two sections, naming a file of its own, a file another directive names too, the source file itself or an absolute path in another directory (what follows is then numbered like lines elsewhere); loaded with the real types.Load (400 packages per load), once the plain way and once by a caller that supplies its own token.FileSet through packages.Config — both must give the same answers; Doc and Comment of every declared name compared with the model on the same layout and with the layout's own ground truth; the questions about a freshly loaded package are put by four goroutines at once and all must be told the same; the package holds a second file with the same line structure under other names and with other comment texts; every name is asked twice and the harness scribbles over the first answer (lines, comment, tag map) in between: the second answer must be the same",
+			Rule: "source files of 1–3 sections (ungrouped var/type/const, struct fields, grouped const/var/type) × 1–7 rows among blank line, 1–3-line comment group (line or block comments, tag lines, go: prose), one- or three-line declaration with or without trailing comment (one-line declarations whose own line holds a nested field list among them: func types and literals with parameters and results, inline struct types), multi-name declarations; comments that belong to no declaration on lines that hold code (after the opening brace of a struct or the opening parenthesis of a group, behind a one-line function) directly above declarations; in about one file of three a `//line file:N` directive between two sections, naming a file of its own, a file another directive names too, the source file itself or an absolute path in another directory (what follows is then numbered like lines elsewhere); loaded with the real types.Load (400 packages per load), once the plain way and once by a caller that supplies its own token.FileSet through packages.Config — both must give the same answers; Doc and Comment of every declared name compared with the model on the same layout and with the layout's own ground truth; the questions about a freshly loaded package are put by four goroutines at once and all must be told the same; the package holds a second file with the same line structure under other names and with other comment texts; every name is asked twice and the harness scribbles over the first answer (lines, comment, tag map) in between: the second answer must be the same",
 		},
 		{
 			Name: "layout-enum", New: func() Case { return &layoutCase{} },
